@@ -186,6 +186,21 @@ ROUND9 = {
     "C17": " Whether a column type is frozen never decides acceptance.",
 }
 
+# clauses added by the tenth seed round
+ROUND10 = {
+    "C03": " The value of key marker i is read at position i of the bound values.",
+    "C04": " The ring-ordered NTS view starts at a node of a replicating datacenter.",
+    "C05": " The fallback plan ends with every enabled node of the local set, live or not.",
+    "C06": " No idempotence flag is recomputed by the driver.",
+    "C08": " The custom type parser never answers without consuming input except at its end.",
+    "C10": " The pool task's bucket accesses on connection removal are bounds-guarded (late errors after a reshard).",
+    "C15": " A tablet replica's node and shard come from the same raw entry.",
+    "C16": " By-name UDT serialization skips its missing-field checks only when every field was visited.",
+    "C17": " A vector takes exactly `dimensions` elements whatever its element type.",
+    "C19": " A partial merge never overwrites a pending update.",
+    "C20": " The USE fan-out is started by the cluster worker only.",
+}
+
 NOT_APPLICABLE = {
 }
 
@@ -204,7 +219,7 @@ def main():
                 "evidence_file": "/verif/evidence/%s.json" % pid,
                 "replay_cmd_template": "./check explain {path}",
                 "engine": "scyllalint",
-                "level_claimed": {"category": "other", "text": text + ROUND4.get(pid, "") + ROUND5.get(pid, "") + ROUND6.get(pid, "") + ROUND7.get(pid, "") + ROUND8.get(pid, "") + ROUND9.get(pid, ""), "design_ref": ref},
+                "level_claimed": {"category": "other", "text": text + ROUND4.get(pid, "") + ROUND5.get(pid, "") + ROUND6.get(pid, "") + ROUND7.get(pid, "") + ROUND8.get(pid, "") + ROUND9.get(pid, "") + ROUND10.get(pid, ""), "design_ref": ref},
                 "level_note": note,
                 "technique": tech,
             })
